@@ -267,6 +267,13 @@ func propRoundTrip(t *rapid.T) {
 	big := rapid.IntRange(0, 9).Draw(t, "big") == 0
 	c := edfgen.Generate(t, edfgen.Options{AllowOutOfRange: true, AllowBig: big})
 	lead := rapid.SliceOfN(rapid.Byte(), 0, 5).Draw(t, "lead")
+	if rapid.IntRange(0, 3).Draw(t, "lead-near-capacity") == 0 {
+		// the value is encoded at a position close to the capacity of the (pooled, 4096-byte-step)
+		// buffer, so that the buffer grows in the middle of it: encoders that reserve bytes first
+		// and fill them in later must find them in the grown buffer
+		n := rapid.SampledFrom([]int{4096, 4096, 8192}).Draw(t, "capacity") - rapid.IntRange(0, 400).Draw(t, "room")
+		lead = append(bytes.Repeat([]byte{0xA5}, n), lead...)
+	}
 	garbage := rapid.SliceOfN(rapid.Byte(), 0, 5).Draw(t, "garbage")
 	// second pass through the same option pair exercises the warmed common cache
 	var enc []byte
